@@ -834,7 +834,7 @@ def p_mp_createInstance(p):
                 raise MOFRepositoryError(
                     msg=_format(
                         "Cannot compile instance of {0!A} because its instance "
-                        "path cannot be created from the instance: {}",
+                        "path cannot be created from the instance: {1}",
                         inst.classname, ve),
                     parser_token=p)
 
@@ -1872,7 +1872,7 @@ def p_instanceDeclaration(p):
                             raise MOFParseError(
                                 msg=_format(
                                     "Property {0!A} with value {1!A} embedded "
-                                    "object type must be ((1}). Actual type "
+                                    "object type must be ({1}). Actual type "
                                     "is {2}", cprop.name, cls_names, type(obj)))
                     # If the compile produces no objects there must have
                     # been an error or the compile was for some other
